@@ -175,6 +175,16 @@ def w_two_grids(ctx, rng, i):
         want = 10 ** (NF / 10) * h_planck * (c_light / wl) * (10 ** (G / 10) - 1) * fs
         tot = float(np.sum(np.mean(np.abs(y.noise) ** 2, axis=-1)))
         ctx.check("stat.power", abs(tot - want) <= 6 * want * np.sqrt(1 / (2 * N)), f"ASE power {tot:.6g} W vs NF*h*f0*(G-1)*fs = {want:.6g} W on grid fs={fs:.3g}, wavelength={wl:.4g} (sequence {[a, b, a]})", ratio=tot / want)
+    # with the optical filter: the same bandwidth in Hz must pass the same ASE power (in W) whatever the simulation grid
+    B = 2e9
+    pw = []
+    for fs, wl in ((4e10, 1550e-9), (1.6e11, 1550e-9), (4e10, 1550e-9)) if i % 2 else ((1.6e11, 1550e-9), (4e10, 1550e-9)):
+        with core.quiet():
+            T.gv(sps=8, fs=fs, wavelength=wl)
+            yb = D.EDFA(T.optical_signal(np.zeros(2 ** 16, complex)), G, NF, B)
+        pw.append((fs, float(np.sum(np.mean(np.abs(yb.noise[:, 2000:-2000]) ** 2, axis=-1)))))
+    tol = 6 * np.sqrt(max(f for f, _ in pw) / (B * 2 ** 16)) + 0.02
+    ctx.check("stat.filtered_power", all(abs(p / pw[0][1] - 1) <= tol for _, p in pw[1:]), f"ASE power behind a {B:.3g} Hz optical filter depends on the sampling grid: {[(f, round(p / pw[0][1], 3)) for f, p in pw]} (tolerance {tol:.3f})")
     ctx.case(("grids", a, b, round(G / 5)), sample=dict(G=G, NF=NF, grid_sequence=[a, b, a]) if i < 2 else None)
 
 
